@@ -842,6 +842,9 @@ class Interferogram(RichData):
         """Strip the lateral calibration and revert to pixels."""
         self.dx = 1.
         self.x, self.y = make_xy_grid(self.data.shape, dx=self.dx)
+        # the polar coordinates derive from x, y: recompute them on next use
+        self._r = None
+        self._t = None
         self._latcaled = False
         return self
 
@@ -867,6 +870,8 @@ class Interferogram(RichData):
         self.x *= plate_scale
         self.y *= plate_scale
         self.dx = plate_scale
+        self._r = None
+        self._t = None
         self._latcaled = True
         return self
 
